@@ -63,7 +63,8 @@ Proof.
   destruct (Reqb (Rsum row) 0) eqn:E.
   - apply Reqb_true in E. split; [reflexivity|]. exists row. split; [now left|assumption].
   - apply Reqb_false in E. destruct (@finish_rows RNum rows) as [d|e].
-    + destruct IH as [Hall ->]. split; [now constructor|reflexivity].
+    + destruct IH as [Hall ->]. split; [now constructor|].
+      unfold finish_row. change (is_fin RNum (Rsum row)) with true. cbn iota. reflexivity.
     + destruct IH as [-> (r & Hr & Hz)]. split; [reflexivity|]. exists r. split; [now right|assumption].
 Qed.
 
